@@ -40,7 +40,8 @@ RULE = ("pipeline: filter lists of 0-4 entries over {h,x,u,trim,entity,str,unico
         "terminator sets; thorough k=5 for both, k=6 for `|`,`}` and a 1/8 phase of k=6 for `}`, a 1/64 phase of k=7), "
         "directly through parse_until_text; generated Python "
         "expressions (nested brackets, dict/set literals, lambdas, strings with | } # and escapes, triple quotes, "
-        "f-strings without quote reuse, comments and newlines inside brackets, CRLF) with 0-3 filters in varied spacing, "
+        "f-strings without quote reuse, literals continued with backslash-newline in every quoting style with | } # and "
+        "quotes inside and after, comments and newlines inside brackets, CRLF) with 0-3 filters in varied spacing, "
         "embedded in text, plus token mutations (delete/duplicate/swap/insert) of those; non-trivial = the expression "
         "contains a terminator character before its real end")
 ASSUMPTIONS = [
@@ -462,12 +463,17 @@ def shrink_pipe(case):
         try:
             return not pipe_case_holds(c)[0]
         except Exception:
+            if os.environ.get("C02_DEBUG"):
+                import traceback
+                traceback.print_exc()
             return False
     cur = dict(case)
     cur["fs"] = ddmin(cur["fs"], lambda fs: fails(dict(cur, fs=list(fs))), 200)
-    for key, simpler in (("B", [[]]), ("P", [None, "g", "n"]), ("D", [[], None, ["f"]])):
-        for s in simpler:
-            if cur[key] != s and fails(dict(cur, **{key: s})):
+    for key, simpler in (("B", [[]]), ("P", [None, "g", "n"]), ("D", [None, [], ["f"]])):
+        for s in simpler:          # simplest first; stop at the current value
+            if cur[key] == s:
+                break
+            if fails(dict(cur, **{key: s})):
                 cur[key] = s
                 break
     cur["fs"] = ddmin(cur["fs"], lambda fs: fails(dict(cur, fs=list(fs))), 200)
@@ -549,14 +555,41 @@ TOKS14 = [t for t in TOKS if t != '"""']
 def task_scan_exhaustive(a):
     """all strings prefix + (n more tokens), optionally every `stride`-th (phase)"""
     prefix, n, toks, stride, phase, bars = a
-    r = new_result()
-    drv = Driver()
     strings = []
     i = 0
     for t in itertools.product(toks, repeat=n):
         if stride == 1 or i % stride == phase:
             strings.append("".join(prefix) + "".join(t))
         i += 1
+    return _scan_check(strings, bars, "scan-exh")
+
+
+def continued_literal_family():
+    """string literals continued over a line with a backslash (all quoting styles, raw/bytes prefixes), with
+    terminators, quotes and `#` inside and after; followed by the real terminator and more text"""
+    out = []
+    for q in ("'", '"', "'" * 3, '"' * 3):
+        other = '"' if q[0] == "'" else "'"
+        inner = ["", "|", "}", "#", other, "a", "|}#" + other]
+        for pre in ("", "r", "b"):
+            for a_ in inner:
+                for b_ in inner:
+                    for nl in ("\\\n", "\\\r\n"):
+                        lit = pre + q + a_ + nl + b_ + q
+                        for after in ("", " ", "+" + other + "|}" + other, "#\n", "[0]", "|", other):
+                            out.append(lit + after + "}")
+                            out.append("f(" + lit + after + ")|h} tail}")
+    return out
+
+
+def task_scan_strings(a):
+    strings, bars, tag = a
+    return _scan_check(strings, bars, tag)
+
+
+def _scan_check(strings, bars, tag):
+    r = new_result()
+    drv = Driver()
     for bar, terms in ((1, ["|", "}"]), (0, ["}"])):
         if bar not in bars:
             continue
@@ -582,7 +615,7 @@ def task_scan_exhaustive(a):
                                       {"spec_q": q, "impl": want}, "oracle.scanner-spec"))
                 if any(c in s[:q] for c in terms):
                     r["nontriv"].append(hash((s, bar)))
-            br(r, "scan-exh:" + kind)
+            br(r, tag + ":" + kind)
     return r
 
 
@@ -592,7 +625,24 @@ NAMES = ["a", "b", "c1", "d", "F", "G", "x_y"]
 STR_BODIES = ["", "|", "}", "#", "{", "a|b}", "${x}", "(", ")]", "x y", "it's", "\\\\", "%>", "</%text>", "é|世}"]
 
 
+def gen_continued(rng):
+    """a literal continued over a line with backslash-newline, terminators / quotes / # inside"""
+    q = rng.choice(["'", '"', "'" * 3, '"' * 3])
+    other = '"' if q[0] == "'" else "'"
+    pre = rng.choice(["", "", "", "r", "b", "f"])
+    pool = ["", "|", "}", "#", other, "a", "x|y", "# c", "|}#" + other, other + "|" + other]
+    if pre == "f":
+        pool = [x for x in pool if "}" not in x]
+    nl = rng.choice(["\\\n", "\\\n", "\\\r\n"])
+    body = rng.choice(pool) + nl + rng.choice(pool)
+    if rng.random() < 0.3:
+        body += nl + rng.choice(pool)
+    return pre + q + body + q
+
+
 def gen_string(rng):
+    if rng.random() < 0.12:
+        return gen_continued(rng)
     body = rng.choice(STR_BODIES)
     kind = rng.random()
     if kind < 0.35:
@@ -636,6 +686,9 @@ def gen_expr(rng, depth, inside=False):
     r = rng.random()
     if depth <= 0 or r < 0.25:
         k = rng.random()
+        if k < 0.08:
+            c = gen_continued(rng)
+            return c + rng.choice(["", " + '|}'", ' + "}|#"', "[0:1]", " # c\n" if inside else " "])
         if k < 0.35:
             return rng.choice(NAMES[:3] + ["x_y"])
         if k < 0.5:
@@ -819,6 +872,12 @@ def task_scan_oracle(a):
         br(r, "oracle-scan:" + ("ok" if ok else "bad") + (":not-evaluable" if detail == "not evaluable" else ""))
         if not ok:
             small = shrink_scan(c)
+            try:
+                ok2, d2 = scan_case_holds(small, render=False)
+                if not ok2:
+                    detail = d2
+            except Exception:
+                pass
             r["viol"].append(("expression-scanner", small, detail, "oracle.scanner"))
         if len(r["samples"]) < 2 and any(ch in c["e"] for ch in "|}") and "\n" in c["e"]:
             r["samples"].append({"stream": "oracle.scanner", "template": c["src"]})
@@ -1131,6 +1190,8 @@ def run(ctx):
                     # k = 6: exhaustive for the expression terminators, a 1/8 phase for the filter part
                     for pre in itertools.product(TOKS, repeat=n - 3):
                         scan_jobs.append((pre, 3, TOKS, 1, 0, (1,)))
+            fam = continued_literal_family()
+            fam_jobs = [(ch, (0, 1), "scan-continued-literal") for ch in chunks(fam, 1500)]
             k7 = []
             if not ctx.quick:
                 for pre in itertools.product(TOKS, repeat=3):
@@ -1154,6 +1215,8 @@ def run(ctx):
                 asyncs.append(("corr.pipeline." + a[0], "corr", pool.apply_async(task_pipe_corr, (a,))))
             for a in scan_jobs:
                 asyncs.append(("corr.scanner.exhaustive", "corr", pool.apply_async(task_scan_exhaustive, (a,))))
+            for a in fam_jobs:
+                asyncs.append(("corr.scanner.continued-literals", "corr", pool.apply_async(task_scan_strings, (a,))))
             for a in k7:
                 asyncs.append(("corr.scanner.sampled-phase", "corr", pool.apply_async(task_scan_exhaustive, (a,))))
             for a in gen_jobs:
@@ -1169,7 +1232,7 @@ def run(ctx):
             corr_context_names(ctx, drv)
             for stream, kind, a in asyncs:
                 r = a.get(timeout=3000)
-                ctx.stream(stream, kind, exhaustive=stream in ("corr.scanner.exhaustive",) or
+                ctx.stream(stream, kind, exhaustive=stream in ("corr.scanner.exhaustive", "corr.scanner.continued-literals") or
                            (stream == "corr.pipeline.expr" and not ctx.quick))
                 v = merge(ctx, stream, kind, r)
                 if v:
@@ -1177,7 +1240,8 @@ def run(ctx):
                     viols.extend(v)
             # the exhaustive scanner stream doubles as an oracle stream (implementation vs lexical specification)
             ctx.stream("oracle.scanner-spec", "oracle")["cases"] += sum(
-                ctx.streams[s]["cases"] for s in ("corr.scanner.exhaustive", "corr.scanner.sampled-phase") if s in ctx.streams)
+                ctx.streams[s]["cases"] for s in ("corr.scanner.exhaustive", "corr.scanner.sampled-phase", "corr.scanner.continued-literals")
+                if s in ctx.streams)
             ctx.log("correspondence done: %d cases, %d disagreements" % (
                 sum(s["cases"] for s in ctx.streams.values() if s["kind"] == "corr"), len(ctx.disagreements)))
         finally:
